@@ -347,7 +347,8 @@ theorem pos_viIterate : Pos Q (viIterate v a) := by
 theorem pos_viAssign : Pos Q (viAssign v a) := by
   unfold viAssign; pos_auto hv hw
 
-theorem pos_recursionRounds (idx : Nat) : ∀ (n : Nat) (it : Ty), Pos Q (recursionRounds v a idx n it)
+theorem pos_recursionRounds (te : TraitEnv) (idx : Nat) :
+    ∀ (n : Nat) (it : Ty), Pos Q (recursionRounds te v a idx n it)
   | 0, _ => pos_pure _
   | n+1, it => by
     unfold recursionRounds
@@ -357,7 +358,9 @@ theorem pos_recursionRounds (idx : Nat) : ∀ (n : Nat) (it : Ty), Pos Q (recurs
     apply pos_bind (pos_expectTy _ _); intro nt
     split
     · exact pos_pure _
-    · exact pos_recursionRounds idx n nt
+    · split
+      · exact pos_pure _
+      · exact pos_recursionRounds te idx n _
 
 theorem pos_viRecursion (Γ : Ctx) : Pos Q (viRecursion Γ v a) := by
   unfold viRecursion
@@ -370,11 +373,13 @@ theorem pos_viRecursion (Γ : Ctx) : Pos Q (viRecursion Γ v a) := by
   · exact pos_stuck _
   · exact pos_kidErr hw _ _
   · apply pos_bind (pos_expectTy _ _); intro it0
-    apply pos_bind
-    · exact pos_modify _ (fun _ => rfl)
-    intro _
-    apply pos_bind (pos_recursionRounds hv hw _ _ _); intro it
-    pos_auto hv hw
+    split
+    · exact pos_kidErr hw _ _
+    · apply pos_bind
+      · exact pos_modify _ (fun _ => rfl)
+      intro _
+      apply pos_bind (pos_recursionRounds hv hw _ _ _ _); intro it
+      pos_auto hv hw
 
 theorem pos_deboolAll (eid : Nat) : ∀ (n i : Nat), Pos Q (deboolAll v a eid n i)
   | 0, _ => pos_pure _
